@@ -124,6 +124,14 @@ def peewee_clip(prog, rep, rule="CLIP"):
     fi = prog.func("PeeweeStorage.get_events")
     loops = [n for n in walk_own(fi.node) if isinstance(n, ast.For) and isinstance(n.target, ast.Name)]
     clip = [l for l in loops if any(isinstance(x, ast.Assign) and any(isinstance(t, ast.Attribute) for t in x.targets) for x in ast.walk(l))]
+    # event fields are re-assigned for all results or for none: a store outside a loop over the result list cuts selected
+    # elements only (e.g. 'only the outermost ones can stick out' is false for overlapping or nested events)
+    in_loops = {id(x) for l in loops for x in ast.walk(l)}
+    for n in walk_own(fi.node):
+        if isinstance(n, (ast.Assign, ast.AugAssign)) and id(n) not in in_loops:
+            for t in (n.targets if isinstance(n, ast.Assign) else [n.target]):
+                if isinstance(t, ast.Attribute) and t.attr in ("timestamp", "duration") and norm(t.value) != "self":
+                    rep.violation(rule, fi.short, f"store {norm(t)} outside a loop over the results", f"`{norm(n)[:80]}` re-assigns the {t.attr} of one selected result event: events are cut to the window for some positions of the result only, so with overlapping or nested events other results still reach outside the window (each returned event must be the stored event cut to the window)", fi.loc(n))
     if not clip:
         rep.ok(rule, fi.short, "clip loop", "no clipping (the property allows one backend to clip, none must)", fi.loc())
         return
@@ -216,6 +224,10 @@ def check(prog, rep):
     rep.trusted_base = ["SQL comparison/ORDER BY/LIMIT semantics", "peewee translates where()/order_by()/limit() literally", "datetime arithmetic is integer microsecond arithmetic"]
     rep.not_decided = ["the 2 ms edge tolerance", "float / julianday precision of the stored instants", "SQLite planner behaviour on ties"]
     count_source(prog, rep)
+    # ... and the Bucket methods a reader calls hand back the backend's answer on every path (no short-cut answers)
+    from ..rules_wrap import wrapper_rules
+
+    wrapper_rules(prog, rep, parts=("reads",))
     pm = pred_memory(prog, rep)
     ps = pred_sqlite(prog, rep)
     pp = pred_peewee(prog, rep)
@@ -267,6 +279,8 @@ VARIANTS = [
     ("B window start floored to 100 us with wrong factor", DS, "microsecond=1000 * int(starttime.microsecond / 1000)", "microsecond=100 * int(starttime.microsecond / 1000)", "ROUND"),
     ("B start and end swapped when forwarding", DS, "            self.bucket_id, limit, starttime, endtime\n        )", "            self.bucket_id, limit, endtime, starttime\n        )", "ROUND"),
     ("B peewee end edge not converted to UTC", PW, "        if endtime:\n            endtime = endtime.astimezone(timezone.utc)\n", "", "PRED"),
+    ("B peewee clips only the outermost results", PW, "        for e in events:\n            if starttime:\n                if e.timestamp < starttime:", "        for e in events[-1:]:\n            if starttime:\n                if e.timestamp < starttime:", "CLIP"),
+    ("B count short-cut for start >= end", DS, "        return self.ds.storage_strategy.get_eventcount(\n", "        if starttime and endtime and endtime <= starttime:\n            return 0\n        return self.ds.storage_strategy.get_eventcount(\n", "WRAP"),
     ("OK comparison flipped", ME, "            events = [e for e in events if e.timestamp <= endtime]", "            events = [e for e in events if endtime >= e.timestamp]", "ok"),
     ("OK the two memory filters merged", ME, "        if starttime:\n            events = [e for e in events if starttime <= (e.timestamp + e.duration)]\n        if endtime:\n            events = [e for e in events if e.timestamp <= endtime]\n", "        events = [e for e in events if (not starttime or starttime <= e.timestamp + e.duration) and (not endtime or e.timestamp <= endtime)]\n", "ok"),
     ("OK sorted reverse", ME, "events = sorted(events, key=lambda k: k[\"timestamp\"])[::-1]", "events = sorted(events, key=lambda k: k[\"timestamp\"], reverse=True)", "ok"),
